@@ -1,9 +1,10 @@
 """C16 - session table hygiene (DESIGN.md 5/C16)."""
 from . import srvrules as R
 from .sockrules import FLAVOURS
+from . import sockrules as S
 
-META = {'level': 'other', 'explanation': 'see DESIGN.md 5/C16', 'trusted_base': [],
-        'not_decided': [], 'assumptions': []}
+from .meta import meta
+META = meta('C16', level='other', extra_tb=None)
 
 
 def check(A):
@@ -14,3 +15,5 @@ def check(A):
         R.disconnect_rules(A, fl, 'C16')
         R.service_task_rules(A, fl, 'C16')
         R.response_rules(A, fl, 'C16', parts=('reap',))
+        S.close_once(A, fl, 'C16')
+        R.handle_connect_rules(A, fl, 'C16')
